@@ -132,6 +132,8 @@ struct Stats {
     chars: u64,
     max_ticks_per_char_x100: u64,
     max_work_per_char_x100: u64,
+    max_mem_per_char: u64,
+    max_mem_case: String,
     work: u64,
     rechecks: u64,
     mismatches: u64,
@@ -156,6 +158,8 @@ impl Default for Stats {
             chars: 0,
             max_ticks_per_char_x100: 0,
             max_work_per_char_x100: 0,
+            max_mem_per_char: 0,
+            max_mem_case: String::new(),
             work: 0,
             rechecks: 0,
             mismatches: 0,
@@ -189,6 +193,10 @@ impl Stats {
         self.chars += o.chars;
         self.max_ticks_per_char_x100 = self.max_ticks_per_char_x100.max(o.max_ticks_per_char_x100);
         self.max_work_per_char_x100 = self.max_work_per_char_x100.max(o.max_work_per_char_x100);
+        if o.max_mem_per_char > self.max_mem_per_char {
+            self.max_mem_per_char = o.max_mem_per_char;
+            self.max_mem_case = o.max_mem_case.clone();
+        }
         self.work += o.work;
         self.rechecks += o.rechecks;
         self.mismatches += o.mismatches;
@@ -262,8 +270,15 @@ pub fn run_batch(cfg: Config) -> i32 {
         eprintln!("harness error: no plan for {}", cfg.prop);
         return 2;
     }
-    let n_chunks = total.div_ceil(CHUNK);
-    let next_chunk = Arc::new(AtomicU64::new(0));
+    let mut n_chunks = total.div_ceil(CHUNK);
+    let mut first_chunk = 0;
+    // the crash observer re-runs one chunk alone when the runs of a batch that died together
+    // turn out to violate the property one by one
+    if let Some(c) = std::env::var("SIM_ONLY_CHUNK").ok().and_then(|v| v.parse::<u64>().ok()) {
+        first_chunk = c.min(n_chunks);
+        n_chunks = (c + 1).min(n_chunks);
+    }
+    let next_chunk = Arc::new(AtomicU64::new(first_chunk));
     let stop_at = Arc::new(AtomicU64::new(u64::MAX));
     let sample_step = (total / 5).max(1);
     let distinct_cap = if cfg.tier == "thorough" { DISTINCT_CAP_THOROUGH } else { DISTINCT_CAP_QUICK };
@@ -326,6 +341,12 @@ pub fn run_batch(cfg: Config) -> i32 {
                             st.max_ticks_per_char_x100 = st.max_ticks_per_char_x100.max(r);
                             let rw = out.work * 100 / (out.n_chars + 16);
                             st.max_work_per_char_x100 = st.max_work_per_char_x100.max(rw);
+                            // percent of the memory budget used
+                            let rm = out.mem_peak * 100 / crate::c01::mem_budget(out.n_chars as usize, case.input.capacity());
+                            if rm > st.max_mem_per_char {
+                                st.max_mem_per_char = rm;
+                                st.max_mem_case = format!("run {i}: {} bytes peak for {} chars ({}, {})", out.mem_peak, out.n_chars, case.gen, case.client.describe());
+                            }
                         }
                         st.work += out.work;
                         *st.generators.entry(case.gen.clone()).or_default() += 1;
@@ -578,7 +599,7 @@ fn relevant_probes(prop: &str) -> Vec<usize> {
             P::ReadShort, P::ReadEintr, P::ReadHardError, P::ReadEarlyEof, P::ByteTruncate, P::ByteFlip, P::ByteOverwrite,
             P::ByteInsert, P::ByteDelete, P::BomDrop, P::BomDup, P::EncSplice, P::TrapCalled, P::TrapContinueNothing,
             P::TrapContinueFffd, P::TrapContinueBig, P::TrapBreakEmpty, P::TrapBreakMsg, P::DecodeMultiIter,
-            P::DecodeErrDecode, P::DecodeErrScan, P::DecodeErrIo, P::DecodeOk,
+            P::DecodeErrDecode, P::DecodeErrScan, P::DecodeErrIo, P::DecodeOk, P::NestedDecodeInRead, P::NestedDecodeInTrap,
         ],
         _ => vec![],
     };
@@ -649,6 +670,10 @@ fn evidence_json(cfg: &Config, st: &Stats, total: u64, exhaustive: u64, exhausti
     cov.set("max_ticks_per_char_observed", J::Float(st.max_ticks_per_char_x100 as f64 / 100.0));
     cov.set("max_work_ticks_per_char_observed", J::Float(st.max_work_per_char_x100 as f64 / 100.0));
     cov.set("work_ticks_total", J::int(st.work));
+    if cfg.prop == "C01" {
+        cov.set("max_percent_of_memory_budget_observed", J::int(st.max_mem_per_char));
+        cov.set("max_peak_live_bytes_case", J::str(&st.max_mem_case));
+    }
     cov.set("work_bound", J::str("seam ticks <= 200*(chars+16); library-internal loop iterations (guarded work hooks) <= 1000*(chars+16); events <= 8*(chars+4)"));
     cov.set("fault_counts", faults);
     cov.set("probes", probes);
